@@ -18,9 +18,6 @@ import Proofs.TokValid
 import Proofs.Placement
 import Proofs.PlacementValid
 import Proofs.PlacementNoInternal
-import Proofs.FitDelete
-import Proofs.FitInline
-import Proofs.UndoForward
 import PM.FillOrder
 import Proofs.FillOrder
 namespace PM.Family
@@ -93,8 +90,6 @@ structure Facts (S : Schema) : Prop where
   compatTrans : compatTransB S = true
   /-- `TextLoop` (C01/C04/C12/C13: merging adjacent texts keeps the content valid) -/
   textLoop : textLoopB S = true
-  /-- `FromDom.TextStable` (C19: a text leads to a state with the same continuations) -/
-  textStable : textStableB S = true
   /-- leaf types accept the empty content (`LeafOk`, C19) -/
   leafOk : leafOkB S = true
   /-- automata well formed and fillings never fail (`SchemaOk` of C19, `LiveSchema` / `WrapWF` of C15) -/
@@ -138,10 +133,8 @@ variable {S : Schema}
 theorem Det (h : Facts S) : FromDom.Det S := det_of_detB S h.det
 theorem TextLoop (h : Facts S) : PM.TextLoop S := textLoop_of_B S h.textLoop
 theorem TextStableP (h : Facts S) : PM.TextStableP S := h.TextLoop.stable
-theorem TextStable (h : Facts S) : FromDom.TextStable S := textStable_of_B S h.textStable
 theorem LeafOk (h : Facts S) : FromDom.LeafOk S := leafOk_of_B S h.leafOk
 theorem SchemaOk (h : Facts S) : FromDom.SchemaOk S := schemaOk_of_B S h.det (fillOkK_eq S ▸ h.fillOk)
-theorem CompatTrans (h : Facts S) : PM.CompatTrans S := compatTrans_of_B S h.compatTrans
 
 end Facts
 
